@@ -195,7 +195,7 @@ def pipeline_from_tables(run, mods, max_ops):
 TIERS = {
     'dev':      (['A'], None, 48, 100, False),                 # development / mutant demonstrations
     'quick':    (['A', 'E'], (60, 4, 8, 2), 320, 120, True),
-    'thorough': (['A', 'E', 'I'], (150, 5, 10, 14), 6000, 200, True),
+    'thorough': (['A', 'E', 'I'], (150, 5, 10, 10), 4000, 200, True),
 }
 TLC_WORKERS = max(1, int(os.environ.get('VERIF_TLC_WORKERS', '4')))   # per TLC run of this check
 
